@@ -12,5 +12,5 @@ assert old in s, "pattern not found"
 open(p,'w').write(s.replace(old,new,1))
 PY
 cd /verif
-if [ -n "$ONLY" ]; then VERIF_REPO=$D ./check $PROP --only "$ONLY" 2>&1 | tail -${TAILN:-4}; else VERIF_REPO=$D ./check $PROP 2>&1 | grep -v "^ok" | tail -${TAILN:-6}; fi
+if [ -n "$ONLY" ]; then VERIF_NO_EVIDENCE=1 VERIF_REPO=$D ./check $PROP --only "$ONLY" 2>&1 | tail -${TAILN:-4}; else VERIF_NO_EVIDENCE=1 VERIF_REPO=$D ./check $PROP 2>&1 | grep -v "^ok" | tail -${TAILN:-6}; fi
 rm -rf $D
